@@ -106,10 +106,18 @@ class finfo:
 
 
 # ----------------------------------------------------------------------------- creation
+def _shape_item(s):
+    try:
+        return _as_index(s)
+    except IndexError:
+        # numpy: a dimension that is not an integer is a TypeError ("'float' object cannot be interpreted as an integer")
+        raise TypeError(f"'{type(s).__name__}' object cannot be interpreted as an integer") from None
+
+
 def _shape(shape):
     if isinstance(shape, (list, tuple)):
-        return tuple(_as_index(s) for s in shape)
-    return (_as_index(shape),)
+        return tuple(_shape_item(s) for s in shape)
+    return (_shape_item(shape),)
 
 
 def zeros(shape, dtype=float, **kw):
@@ -253,10 +261,12 @@ def meshgrid(*xi, indexing="xy", **kw):
 def ix_(*args):
     out, n = [], len(args)
     for i, a in enumerate(args):
+        was_array = isinstance(a, ndarray)
         a = asarray(a)
         if a.ndim != 1:
             raise ValueError("Cross index must be 1 dimensional")
-        if a.size == 0:
+        if a.size == 0 and not was_array:
+            # numpy types empty *sequences* as intp; an empty float ndarray stays float (and is then refused as an index)
             a = a.astype(int)
         if a.dtype.kind == "b":
             raise ShimUnsupported("ix_ with boolean arrays")
